@@ -142,6 +142,12 @@ func New(proxy string, conn net.Conn, addr netip.AddrPort,
 	return peer
 }
 
+// Close closes a peer's connection.  It is only meant to be called for
+// peers that have never been started.
+func (p *Peer) Close() error {
+	return p.conn.Close()
+}
+
 func (p *Peer) MultipathTCP() bool {
 	c, ok := p.conn.(*net.TCPConn)
 	if !ok {
